@@ -628,7 +628,7 @@ func (fc *FnCtx) frameCheck(rs *State, env *SpecEnv, pos token.Pos) {
 						continue
 					}
 					if tg.isRng {
-						excl = append(excl, and(eq(r, tg.s.Ref), app("bvsle", tg.lo, i), app("bvslt", i, tg.hi)))
+						excl = append(excl, and(eq(r, tg.s.Ref), app("bvsle", tg.lo, tg.hi), app("bvult", app("bvsub", i, tg.lo), app("bvsub", tg.hi, tg.lo))))
 					} else if tg.ptr.Kind == PElem {
 						excl = append(excl, and(eq(r, tg.ptr.Ref), eq(i, tg.ptr.Idx)))
 					}
